@@ -41,6 +41,17 @@ FRAMINGS = {
     "diagnostics": "an added DIAGNOSTIC or CONVENIENCE. The edit adds a message, a progress indication, a summary line, a statistic, a "
                    "timestamp or version stamp, a backup copy, a log file, a cache file, a default for a missing option, or an "
                    "environment variable that switches something on - and that addition leaks into what the property constrains in a corner.",
+    "numeric": "an OPTIMISATION OF THE NUMERIC SEARCH or of colour arithmetic. The edit makes the optimiser or a conversion cheaper or 'more "
+               "stable' (an early exit, fewer iterations, a coarser step, a cached intermediate value, a float comparison with a tolerance, "
+               "integer arithmetic instead of float, rounding moved earlier or later, a lookup table) and is indistinguishable on "
+               "ordinary colours.",
+    "ergonomics": "an API / CLI ERGONOMICS change. The edit makes the interface friendlier (accepts another input type or spelling, "
+                  "normalises or strips arguments, adds a keyword alias or a new default, returns a richer object that still compares "
+                  "equal in the common case, adds a CLI option or lets an option be repeated) and changes behaviour in a corner of the "
+                  "existing interface.",
+    "portability": "a PORTABILITY change. The edit is made for another platform or file system (Windows path separators and drive letters, "
+                   "newline translation, case-insensitive or Unicode-normalising file names, long paths, read-only files and permission bits, "
+                   "symlinks and junctions, locale-dependent number or text handling) and subtly changes behaviour on this one.",
     "ordering": "an ORDERING change. The edit re-orders two steps, or the traversal / iteration / sort order of something, for a plausible reason; "
                 "each order is fine for most inputs.",
 }
